@@ -412,19 +412,19 @@ partial def Sema.C11.driverMain (stdin stdout : IO.FS.Stream) (args : List Strin
   | [] | ["replay"] => Sema.loopPure stdin stdout Sema.C11.replayLine
   | ["gen", "walks", seed, k] => do
     -- stdin: configuration lines; k random walks per configuration (every third one probes blocked threads)
-    let rec loop (r : Sema.C11.Rng) : IO Unit := do
+    let rec loopW (r : Sema.C11.Rng) : IO Unit := do
       let line ← stdin.getLine
       if line.isEmpty then return ()
       match Sema.C11.parseCfgLine line with
-      | none => loop r
+      | none => loopW r
       | some c =>
         let mut r := r
         for i in List.range (k.toNat?.getD 10) do
           let (r', toks) := Sema.C11.randomWalk c r (if i % 3 == 0 then 15 else 0)
           r := r'
           stdout.putStrLn (Sema.C11.showCfgH c ++ " :: " ++ " ".intercalate toks)
-        loop r
-    loop ⟨UInt64.ofNat ((seed.toNat?.getD 1) * 15485863 + 11)⟩
+        loopW r
+    loopW ⟨UInt64.ofNat ((seed.toNat?.getD 1) * 15485863 + 11)⟩
   | "witness" :: rest =>
     let m := (rest.head?.bind String.toNat?).getD 2000000
     Sema.loopPure stdin stdout (Sema.C11.witnessLine m)
